@@ -247,7 +247,7 @@ func (c *Ctx) JoinedFork(rule string, fn *ssa.Function) bool {
 			}
 			for b := range l.body {
 				for _, ins := range b.Instrs {
-					if sl, ok := ins.(*ssa.Select); ok && sl.Blocking {
+					if _, ok := blockingRecv(ins); ok {
 						return true
 					}
 				}
@@ -290,7 +290,7 @@ func (c *Ctx) JoinedFork(rule string, fn *ssa.Function) bool {
 		}
 	}
 	var coll *cloop
-	var sel *ssa.Select
+	var sel ssa.Instruction // the blocking receive of the collector: a select over receive cases, or a plain receive
 	for _, l := range cloops {
 		if l == spawn {
 			continue
@@ -308,8 +308,8 @@ func (c *Ctx) JoinedFork(rule string, fn *ssa.Function) bool {
 		}
 		for b := range l.body {
 			for _, ins := range b.Instrs {
-				if s, ok := ins.(*ssa.Select); ok && s.Blocking {
-					coll, sel = l, s
+				if _, ok := blockingRecv(ins); ok {
+					coll, sel = l, ins
 				}
 			}
 		}
@@ -318,12 +318,12 @@ func (c *Ctx) JoinedFork(rule string, fn *ssa.Function) bool {
 		c.R.Fail(rule, Fn(fn), c.P.FuncPos(fn), "no loop performing one blocking receive per started worker (same count as the start loop) found", "for range workers { <-done }", nil)
 		return false
 	}
-	for _, stt := range sel.States {
-		if stt.Dir != types.RecvOnly {
-			c.R.Unknown(rule, Fn(cf), c.Pos(sel), "the collector's select has a send case")
-			return false
-		}
-		ch := stt.Chan
+	recvChans, _ := blockingRecv(sel)
+	if recvChans == nil {
+		c.R.Unknown(rule, Fn(cf), c.Pos(sel), "the collector's select has a send case")
+		return false
+	}
+	for _, ch := range recvChans {
 		if cf != fn {
 			ch = toFn(ch)
 		}
@@ -334,7 +334,7 @@ func (c *Ctx) JoinedFork(rule string, fn *ssa.Function) bool {
 	}
 	// every iteration passes the select; the loop is left only through its normal exit
 	if x, _ := an.Cut(an.CutQuery{From: coll.iterStart, Target: coll.iterEnd,
-		AcceptInstr: func(i ssa.Instruction) bool { return i == ssa.Instruction(sel) }}); x != nil {
+		AcceptInstr: func(i ssa.Instruction) bool { return i == sel }}); x != nil {
 		c.R.Fail(rule, Fn(cf), c.Pos(sel), "an iteration of the collector loop can skip the receive", "one blocking receive per iteration", nil)
 		return false
 	}
@@ -374,6 +374,30 @@ func (c *Ctx) JoinedFork(rule string, fn *ssa.Function) bool {
 	}
 	c.R.OK(rule, Fn(fn), c.P.FuncPos(fn), "joined fork: one goroutine per iteration of a loop bounded by W; each sends exactly once after its work returned; the helper performs W blocking receives on those channels before returning")
 	return true
+}
+
+// blockingRecv recognises a blocking receive: a blocking select whose cases are all receives (ok, with the channels;
+// ok with nil channels if it has a send case), or a plain `<-ch`.
+func blockingRecv(ins ssa.Instruction) ([]ssa.Value, bool) {
+	switch x := ins.(type) {
+	case *ssa.Select:
+		if !x.Blocking {
+			return nil, false
+		}
+		var chans []ssa.Value
+		for _, st := range x.States {
+			if st.Dir != types.RecvOnly {
+				return nil, true
+			}
+			chans = append(chans, st.Chan)
+		}
+		return chans, true
+	case *ssa.UnOp:
+		if x.Op == token.ARROW {
+			return []ssa.Value{x.X}, true
+		}
+	}
+	return nil, false
 }
 
 // chanID identifies a channel in the fork helper's frame: the cell holding it (captured variables) or the value itself.
